@@ -9,7 +9,7 @@ macro_rules! with_key_type {
     ($kt:expr, $K:ident => $body:expr) => {
         match $kt {
             $crate::refmodel::record::KeyType::K256 => {
-                type $K = k256::ecdsa::SigningKey;
+                type $K = $crate::keys::K256Key;
                 $body
             }
             $crate::refmodel::record::KeyType::Libsecp => {
@@ -17,11 +17,11 @@ macro_rules! with_key_type {
                 $body
             }
             $crate::refmodel::record::KeyType::Ed => {
-                type $K = ed25519_dalek::SigningKey;
+                type $K = $crate::keys::EdKey;
                 $body
             }
             $crate::refmodel::record::KeyType::Combined => {
-                type $K = enr::CombinedKey;
+                type $K = $crate::keys::CombKey;
                 $body
             }
         }
